@@ -276,7 +276,8 @@ pub enum Build {
     /// a Text made another way than BytesText::new: mode 0/1/2 = BytesText::from_escaped of
     /// escape::escape / partial_escape / minimal_escape (s), 3 = BytesText::new(s).borrow(),
     /// 4 = BytesText::new(s).into_owned(), 5/6/7 = BytesCData::new(s).escape() /
-    /// .partial_escape() / .minimal_escape()
+    /// .partial_escape() / .minimal_escape(), 8 = BytesText::from_escaped of the string escaped
+    /// by the caller with numeric character references
     TextVia { s: String, mode: u8 },
     /// BytesCData::escaped(s): as many CData events as the iterator yields
     CDataEscaped(String),
